@@ -322,19 +322,45 @@ def x2_fresh(chk, F, an, sig, tag):
             if g.blocks[b]["cleanup"] or F.call_targets(g, t) != [E.path]:
                 continue
             seed_arg = t["args"][seedp - 1]
-            so = none_or_some(g, seed_arg)
-            if so == "none":
-                n_unauth += 1
-                check_zero_fill(chk, F, an, g, b, t["args"][auxp - 1], tag)
-            else:
-                n_auth += 1
-                d = core.operand_deps(g, seed_arg)
-                ok = any(adt == K and name == "seed" for adt, name in d["fields"]) or any(name == "seed" for adt, name in d["fields"])
-                chk.ob("X2.authenticated-with-the-keys-own-seed", "%s%s" % (g.key, tag), so == "some" and ok,
-                       "the expander is called in %s with a seed that is not the seed member of the private key in use (%s; fields %s): buffers of other keys would authenticate"
-                       % (g.path, so, sorted(d["fields"])), where=g.loc(b))
+            # one call whose seed argument is chosen on different paths (`let seed = if used { Some(..) } else { None }`) is
+            # treated as one case per choice, located where the choice is made
+            cases = seed_cases(g, seed_arg)
+            for so, via, src in cases:
+                if so == "none":
+                    n_unauth += 1
+                    check_zero_fill(chk, F, an, g, b, t["args"][auxp - 1], tag, via=via)
+                else:
+                    n_auth += 1
+                    d = core.operand_deps(g, src) if src is not None else {"fields": set()}
+                    ok = any(adt == K and name == "seed" for adt, name in d["fields"]) or any(name == "seed" for adt, name in d["fields"])
+                    chk.ob("X2.authenticated-with-the-keys-own-seed", "%s%s" % (g.key, tag), so == "some" and ok,
+                           "the expander is called in %s with a seed that is not the seed member of the private key in use (%s; fields %s): buffers of other keys would authenticate"
+                           % (g.path, so, sorted(d["fields"])), where=g.loc(b))
     chk.count("unauthenticated_expansions", n_unauth)
     chk.count("authenticated_expansions", n_auth)
+
+
+def seed_cases(f, operand, depth=0):
+    """[(kind, block where the choice is made or None, operand inside Some)] for an Option operand: one entry if it has a single
+    definition (kind none / some / ?), one per definition when every definition is an Option literal."""
+    l = core.op_local(operand)
+    if l is None or depth > 6:
+        return [("?", None, operand)]
+    ds = [d for d in f.defs_of(l) if not f.blocks[d[0]]["cleanup"] and not (d[1] != "term" and d[2].get("place", {}).get("proj"))]
+    if len(ds) == 1:
+        b, i, d = ds[0]
+        if i != "term" and d["k"] == "assign" and d["rv"]["k"] == "use":
+            return seed_cases(f, d["rv"]["op"], depth + 1)
+        so = none_or_some(f, operand)
+        return [(so, None, operand)]
+    out = []
+    for b, i, d in ds:
+        if i != "term" and d["k"] == "assign" and d["rv"]["k"] == "aggregate" and d["rv"].get("path") == OPTION:
+            kind = d["rv"]["variant"].lower()
+            out.append((kind, b, d["rv"]["ops"][0] if kind == "some" and d["rv"]["ops"] else None))
+        else:
+            return [("?", None, operand)]
+    return out or [("?", None, operand)]
 
 
 def none_or_some(f, operand):
@@ -433,7 +459,9 @@ def writes_confined_to_header(F, g, param, limit):
     return True, ""
 
 
-def check_zero_fill(chk, F, an, g, call_bb, aux_arg, tag):
+def check_zero_fill(chk, F, an, g, call_bb, aux_arg, tag, via=None):
+    """`via`: the block in which the seedless case is chosen when the call is shared with the authenticated case; the zero
+    fill must then lie on every path to that block, and the region examined is fill .. via .. call."""
     var = slice_var_of(g, aux_arg)
     key = "%s%s" % (g.key, tag)
     chk.ob("X2.unauthenticated-expansion-takes-the-whole-slice", key, var is not None,
@@ -447,7 +475,8 @@ def check_zero_fill(chk, F, an, g, call_bb, aux_arg, tag):
         cp = core.strip_generics(core.callee_path(t) or "")
         if cp == "core::slice::fill" and len(t["args"]) == 2 and core.op_const_val(t["args"][1]) == 0 and slice_var_of(g, t["args"][0]) == var:
             fills.append(b)
-    dom = [b for b in fills if g.dominates(b, call_bb)]
+    anchor_bb = via if via is not None else call_bb
+    dom = [b for b in fills if g.dominates(b, anchor_bb)]
     chk.ob("X2.zero-fill-before-unauthenticated-expansion", key, len(dom) >= 1,
            "in %s the expander is called without a seed on a buffer that was not zero-filled as a whole on every path before "
            "(fill(0) calls on the same slice: %d, dominating: %d): residue of the caller's buffer would be used as cached tree nodes without any authentication"
@@ -457,6 +486,9 @@ def check_zero_fill(chk, F, an, g, call_bb, aux_arg, tag):
     fb = dom[-1]
     # between the fill and the call: no re-assignment of the slice variable, only header-confined writers
     between = {b for b in flow.reach_from(g, fb) if call_bb in flow.reach_from(g, b)} - {fb}
+    if via is not None:
+        between = ({b for b in flow.reach_from(g, fb) if via in flow.reach_from(g, b) or b == via} |
+                   {b for b in flow.reach_from(g, via) if call_bb in flow.reach_from(g, b)}) - {fb}
     bad = []
     for b, i, s in stores_to(g, var):
         if b in between or (b == fb and False):
